@@ -428,11 +428,263 @@ class IntFunOps:
         self.reset()
         return self._wrap(g, "w_stirling2", [n, k], self._safe(self.LI.stirling2, n, k), lambda: self.mp.stirling2(n, k))
 
+    # ---- functions without a Lean model (float code paths): judged by the independent oracle ------------
+    def _fprec(self, g, bits):
+        return self._wprec(g, max(bits, 1))
+
+    def gen_w_binomial(self, g):
+        import intfun_oracle as O
+        r = g.r
+        n = r.choice([r.randint(0, 40), r.randint(0, 200), r.randint(-30, 0), r.choice([52, 53, 64, 100, 128, 170, 171])])
+        k = r.choice([r.randint(0, max(0, abs(n))), n // 2 if n > 0 else 2, 0, 1, n, n + 1, r.randint(0, 12)])
+        k = max(k, 0) if n < 0 else k
+        if n >= 0 and r.random() < 0.05:
+            k = -r.randint(1, 3)
+        if r.random() < 0.06:
+            # arguments just above 2^(2*prec): the `prec=2*ctx.prec` additions inside binomial (finding D16)
+            p = r.randint(1, 7)
+            n = (1 << (2 * p)) + r.randint(1, 6)
+            k = r.choice([n // 2, 2, 3, n - 2])
+            g.note("binomial_arg", "above-2^(2prec)")
+            return "w_binomial %d %d %d n" % (n, k, p), None, {"wrap": p}
+        g.note("binomial_arg", "negative-n" if n < 0 else "regular")
+        p = self._fprec(g, abs(O.binomial(n, k)).bit_length())
+        return "w_binomial %d %d %d n" % (n, k, p), None, {"wrap": p}
+
+    def gen_w_rf(self, g, name="w_rf"):
+        import intfun_oracle as O
+        r = g.r
+        x = r.choice([r.randint(0, 30), r.randint(1, 100), r.randint(-20, -1), 0, 1])
+        n = r.choice([r.randint(0, 20), r.randint(0, 60), 0, 1, 2])
+        v = O.rf(x, n) if name == "w_rf" else O.ff(x, n)
+        p = self._fprec(g, abs(v).bit_length())
+        return "%s %d %d %d n" % (name, x, n, p), None, {"wrap": p}
+
+    def gen_w_ff(self, g):
+        return self.gen_w_rf(g, "w_ff")
+
+    def gen_w_bell(self, g):
+        import intfun_oracle as O
+        r = g.r
+        n = r.choice([r.randint(0, 12), r.randint(0, 40), r.randint(0, 90)])
+        p = self._fprec(g, O.bell(n).bit_length())
+        return "w_bell %d %d n" % (n, p), None, {"wrap": p}
+
+    def gen_w_cyclotomic(self, g):
+        import intfun_oracle as O
+        r = g.r
+        n = r.choice([r.randint(0, 12), r.randint(0, 60), r.choice([1, 2, 3, 4, 6, 8, 9, 12, 15, 30, 105])])
+        x = r.choice([r.randint(-10, 10), 0, 1, -1, 2, -2, 10, r.randint(-1000, 1000)])
+        p = self._fprec(g, abs(O.cyclotomic(n, x)).bit_length())
+        return "w_cyclotomic %d %d %d n" % (n, x, p), None, {"wrap": p}
+
+    def gen_bernfrac(self, g):
+        r = g.r
+        k = r.random()
+        if k < 0.5:
+            n = r.randint(0, 60)
+        elif k < 0.9:
+            n = r.randint(0, 400)
+        else:
+            n = r.choice([r.randint(400, 1200), 1000, 1500, 2000, 2998, 3000, 3002])
+        g.note("bernfrac_arg", _bucket(max(n, 1)))
+        return "bernfrac %d" % n, None, {}
+
+    def gen_bern_hist(self, g):
+        r = g.r
+        L = r.choice([1, 2, 3, 5, 8])
+        base = r.choice([r.randint(0, 30), r.randint(0, 120), r.randint(0, 400)])
+        toks = []
+        for _ in range(L):
+            n = max(0, base + r.choice([0, 0, 2, -2, 4, 10, 12, 14, 1, r.randint(-20, 40)]))
+            p = r.choice([r.choice([10, 24, 53, 64, 113, 200]), r.randint(1, 300), 31, 32, 33, 63, 64, 65])
+            toks.append("%d:%d" % (n, p))
+        return "bern_hist " + " ".join(toks), None, {}
+
+    def gen_mangoldt(self, g):
+        r = g.r
+        k = r.random()
+        small = [2, 3, 5, 7, 11, 13, 31, 37, 41, 43, 47, 53, 101]
+        big = [1009, 10007, 100003, 1000003, 2147483647, 1000000007, 999999999989, 99999999999973]
+        if k < 0.25:
+            n, s = r.randint(-3, 300), "small"
+        elif k < 0.55:
+            pp = r.choice(small + big)
+            e = r.randint(1, max(1, int(100 // max(1, pp.bit_length()))))
+            n, s = pp ** e, "prime-power"
+        elif k < 0.7:
+            pp = r.choice(small + big); e = r.randint(1, 3)
+            n, s = pp ** e + r.choice([-2, -1, 1, 2]), "near-prime-power"
+        elif k < 0.85:
+            n, s = r.choice(small + big) ** r.randint(1, 2) * r.choice(small + big), "two-primes"
+        else:
+            q = r.choice([53 * 59, 1009 * 1013, 10007 * 10009]); e = r.randint(2, 4)
+            n, s = q ** e, "composite-power"
+        g.note("mangoldt_arg", s)
+        return "mangoldt %d" % n, None, {}
+
     def _wrap_exact(self, g, name, args, call):
         g.note("wprec", "exact=True")
         line, thunk, meta = self._wrap(g, name, args, None, call)
+        t = line.split()
+        t[-2] = "0"                      # precision 0 in the request line <=> exact=True (replayable)
         meta["exact"] = True
-        return line, thunk, meta
+        meta["wrap"] = 0
+        return " ".join(t), thunk, meta
+
+    # ---- re-run a request line on the real code (generation, corpus and replay all go through here) ----
+    def impl_of_line(self, line):
+        """the answer of the REAL code to a request line, from fresh module state; None if the op is unknown"""
+        LI, mp = self.LI, self.mp
+        t = line.split()
+        if not t:
+            return None
+        op, a = t[0], t[1:]
+        try:
+            if op == "ifac_hist":
+                self.reset()
+                out = []
+                for x in a:
+                    if x.startswith("s2:"):
+                        _, n, k = x.split(":")
+                        out.append(self._one(LI.stirling2, int(n), int(k)))
+                    else:
+                        out.append(self._one(LI.ifac, int(x)))
+                out.append(self._S(LI.ifac.__defaults__[0]))
+                return "L:" + ",".join(out)
+            if op == "ifac2_hist":
+                self.reset()
+                out = [self._one(LI.ifac2, int(x)) for x in a]
+                pr = LI.ifac2.__defaults__[0]
+                return "L:" + ",".join(out + [self._S(pr[0]), self._S(pr[1])])
+            if op == "ifib_hist":
+                self.reset()
+                out = [self._one(LI.ifib, int(x)) for x in a]
+                return "L:" + ",".join(out + [self._S(LI.ifib.__defaults__[0])])
+            if op == "euler_hist":
+                self.reset()
+                out = [self._one(LI.eulernum, int(x)) for x in a]
+                return "L:" + ",".join(out + [self._S(LI.eulernum.__defaults__[0])])
+            if op == "stirling1" and len(a) == 2:
+                return self._one(LI.stirling1, int(a[0]), int(a[1]))
+            if op == "moebius" and len(a) == 1:
+                return self._one(LI.moebius, int(a[0]))
+            if op == "list_primes" and len(a) == 1:
+                try:
+                    return "L:" + ",".join(str(int(q)) for q in LI.list_primes(int(a[0])))
+                except Exception as e:  # noqa
+                    return enc_exc(e)
+            if op == "primepi" and len(a) == 1:
+                return self._one(mp.primepi, int(a[0]))
+            if op == "isprime" and len(a) == 1:
+                return "B:1" if LI.isprime(int(a[0])) else "B:0"
+            if op == "gcd":
+                return self._one(LI.gcd, *[int(x) for x in a])
+            if op == "powmod" and len(a) == 3:
+                return "I:%d" % pow(int(a[0]), int(a[1]), int(a[2]))
+            if op == "isqrt_small" and len(a) == 2:
+                return "I:%d" % LI.isqrt_small_python(int(a[0]))
+            if op == "sqrtrem_large" and len(a) == 2:
+                y, rem = LI.sqrtrem_python(int(a[0]))
+                return "P:I:%d,I:%d" % (y, rem)
+            if op in FLOAT_ONLY and len(a) == FLOAT_ONLY[op][1] + 2 and a[-1] == "n":
+                args = [int(x) for x in a[:-2]]
+                prec = int(a[-2])
+                old = mp.mp.prec
+                try:
+                    mp.mp.prec = prec
+                    v = _timed(lambda: getattr(mp, FLOAT_ONLY[op][0])(*args))
+                    if hasattr(v, "_mpf_"):
+                        return enc_mpf(v._mpf_)
+                    if isinstance(v, int):
+                        return "I:%d" % v
+                    return "?:" + repr(v)[:80]
+                except _Timeout:
+                    return "T:timeout"
+                except Exception as e:  # noqa
+                    return enc_exc(e)
+                finally:
+                    mp.mp.prec = old
+            if op == "bernfrac" and len(a) == 1:
+                import mpmath.libmp.gammazeta as GZ
+                try:
+                    GZ.bernoulli_cache.clear()
+                    pq = _timed(lambda: GZ.bernfrac(int(a[0])), 60)
+                    return "P:I:%d,I:%d" % (int(pq[0]), int(pq[1]))
+                except _Timeout:
+                    return "T:timeout"
+                except Exception as e:  # noqa
+                    return enc_exc(e)
+            if op == "bern_hist":
+                import mpmath.libmp.gammazeta as GZ
+                GZ.bernoulli_cache.clear()
+                out = []
+                old = mp.mp.prec
+                try:
+                    for x in a:
+                        n, pr = x.split(":")
+                        mp.mp.prec = int(pr)
+                        try:
+                            v = _timed(lambda: mp.bernoulli(int(n)))
+                            out.append(enc_mpf(v._mpf_))
+                        except _Timeout:
+                            out.append("T:timeout")
+                        except Exception as e:  # noqa
+                            out.append(enc_exc(e))
+                finally:
+                    mp.mp.prec = old
+                    GZ.bernoulli_cache.clear()
+                return "L:" + ",".join(out)
+            if op == "mangoldt" and len(a) == 1:
+                old = mp.mp.prec
+                try:
+                    mp.mp.prec = 53
+                    n = int(a[0])
+                    v = _timed(lambda: mp.mangoldt(n))
+                    if v == 0:
+                        return "I:0"
+                    q = int(mp.nint(mp.exp(v)))
+                    # exp(ln p) at 53 bits identifies p only while p < 2^50; otherwise search the exact root
+                    if mp.ln(q) != v:
+                        import intfun_oracle as _O
+                        for k in range(1, n.bit_length() + 1):
+                            r = _O._iroot(n, k)
+                            if r ** k == n and mp.ln(r) == v:
+                                q = r
+                                break
+                        else:
+                            return "?:mangoldt value %s is not ln of a root of n" % mp.nstr(v, 17)
+                    return "I:%d" % q
+                except _Timeout:
+                    return "T:timeout"
+                except Exception as e:  # noqa
+                    return enc_exc(e)
+                finally:
+                    mp.mp.prec = old
+            if op in WRAPPERS and len(a) == WRAPPERS[op][1] + 2 and a[-1] == "n":
+                args = [int(x) for x in a[:-2]]
+                prec = int(a[-2])
+                fname = WRAPPERS[op][0]
+                self.reset()
+                old = mp.mp.prec
+                try:
+                    if prec == 0:
+                        v = getattr(mp, fname)(*args, exact=True)
+                    else:
+                        mp.mp.prec = prec
+                        v = getattr(mp, fname)(*args)
+                    if isinstance(v, int):
+                        return "I:%d" % v
+                    if hasattr(v, "_mpf_"):
+                        return enc_mpf(v._mpf_)
+                    return "?:" + repr(v)
+                except Exception as e:  # noqa
+                    return enc_exc(e)
+                finally:
+                    mp.mp.prec = old
+        except ValueError:
+            return "?:bad-op"
+        return "?:bad-op"
 
     # ---- malformed stream --------------------------------------------------------------
     def gen_malformed(self, g):
@@ -442,33 +694,63 @@ class IntFunOps:
         return line, (lambda: "?:bad-op"), {"raw": True}
 
 
+# driver op -> (mp-level function name, number of integer arguments)
+FLOAT_ONLY = {"w_binomial": ("binomial", 2), "w_rf": ("rf", 2), "w_ff": ("ff", 2), "w_bell": ("bell", 1),
+              "w_cyclotomic": ("cyclotomic", 2)}
+# ops for which the Lean driver has no counterpart: judged by the independent oracle only
+ORACLE_ONLY = set(FLOAT_ONLY) | {"bernfrac", "bern_hist", "mangoldt"}
+CALL_TIMEOUT = 20.0      # seconds; a timeout is "no result" (T:timeout), never a pass
+
+
+class _Timeout(Exception):
+    pass
+
+
+def _timed(f, seconds=CALL_TIMEOUT):
+    import signal
+
+    def h(sig, frm):
+        raise _Timeout()
+    old = signal.signal(signal.SIGALRM, h)
+    signal.setitimer(signal.ITIMER_REAL, seconds)
+    try:
+        return f()
+    finally:
+        signal.setitimer(signal.ITIMER_REAL, 0)
+        signal.signal(signal.SIGALRM, old)
+
+
+WRAPPERS = {"w_fac": ("fac", 1), "w_fac2": ("fac2", 1), "w_fib": ("fib", 1), "w_euler": ("eulernum", 1),
+            "w_stirling1": ("stirling1", 2), "w_stirling2": ("stirling2", 2)}
+
 ALL_OPS = ["ifac_hist", "ifac2_hist", "ifib_hist", "euler_hist", "stirling1", "moebius", "list_primes", "primepi",
            "isprime", "gcd", "powmod", "w_fac", "w_fac2", "w_fib", "w_euler", "w_stirling1", "w_stirling2", "malformed",
-           "isqrt_small", "sqrtrem_large"]
-WEIGHTS = [8, 6, 8, 3, 8, 8, 5, 3, 10, 8, 3, 6, 4, 6, 4, 5, 5, 1, 4, 4]
+           "isqrt_small", "sqrtrem_large",
+           "w_binomial", "w_rf", "w_ff", "w_bell", "w_cyclotomic", "bernfrac", "bern_hist", "mangoldt"]
+WEIGHTS = [8, 6, 8, 3, 8, 8, 5, 3, 10, 8, 3, 6, 4, 6, 4, 5, 5, 1, 4, 4,
+           5, 3, 3, 3, 4, 3, 3, 4]
 
 
 def compare(impl, model, meta):
-    """returns 'ok' | 'ulp_only' | 'DISAGREE'"""
+    """returns 'ok' | 'ulp_only' | 'DISAGREE'.  For the float wrappers the model answers the CORRECTLY rounded value and
+    the exact integer; a real result that differs from the former but satisfies the property text (exact when it
+    fits, within one unit in the last place otherwise — decided by intfun_oracle.float_ok, which uses nothing from
+    mpmath) is 'ulp_only', not a disagreement."""
+    if meta.get("op") in ORACLE_ONLY and model == "?:bad-op":
+        return "ok"                     # no Lean counterpart: the property itself is decided by intfun_oracle.decide
     if "wrap" not in meta:
         return "ok" if impl == model else "DISAGREE"
-    from mpmath.libmp import from_int, bitcount
-    from mpmath.libmp.libintmath import trailing
+    import intfun_oracle
     p = meta["wrap"]
-    # model answer is the correctly rounded mpf, or N / E:…; recover the exact integer from a second field
     if not model.startswith("P:"):
         return "ok" if impl == model else "DISAGREE"
     rounded, exact = model[2:].split(",")
     v = int(exact[2:])
-    if meta.get("exact"):
+    if meta.get("exact") or p == 0:
         return "ok" if impl == "I:%d" % v else "DISAGREE"
     if impl == rounded:
         return "ok"
-    a = abs(v)
-    fits = (a == 0) or (bitcount(a) - trailing(a) <= p)
-    if fits:
-        return "DISAGREE"
-    if impl in (enc_mpf(from_int(v, p, "f")), enc_mpf(from_int(v, p, "c"))):
+    if impl.count(":") == 3 and not impl.startswith(("E:", "I:", "?")) and intfun_oracle.float_ok(impl, v, p)[0]:
         return "ulp_only"
     return "DISAGREE"
 
@@ -484,7 +766,10 @@ def run_t1(ncases, seed, ops=None, weights=None):
         op = g.r.choices(ops, weights)[0]
         g.note("op", op)
         line, thunk, meta = getattr(co, "gen_" + op)(g)
-        lines.append(line); impl_out.append(thunk()); metas.append(meta); opnames.append(op)
+        meta["op"] = op
+        if "wrap" in meta:
+            meta["wrap"] = int(line.split()[-2])
+        lines.append(line); impl_out.append(co.impl_of_line(line)); metas.append(meta); opnames.append(op)
     co.reset()
     model_out = Driver().ask(lines)
     dis, per_op, ulp_only = [], {}, []
@@ -498,7 +783,7 @@ def run_t1(ncases, seed, ops=None, weights=None):
         elif c != "ok":
             d[1] += 1
             dis.append({"index": i, "op": opnames[i], "line": lines[i], "impl": a[:300], "model": b[:300]})
-    return {"per_op": per_op, "lines": lines, "impl": impl_out, "ulp_only": ulp_only}, dis, g
+    return {"per_op": per_op, "lines": lines, "impl": impl_out, "model": model_out, "ops": opnames, "ulp_only": ulp_only}, dis, g
 
 
 if __name__ == "__main__":
